@@ -26,6 +26,25 @@
 (* harness (harness/src/bin/fjsondrv.rs) concretises each document to      *)
 (* bytes and runs the real parser and an independent one on it.            *)
 (*                                                                         *)
+(* Families (number = bit of C07_FAMS):                                    *)
+(*   0 named0   every subset of the six named members in every order (1957)*)
+(*   1 named1   ... with one tag member at every position                  *)
+(*   2 named2   ... with two tag members at every pair of positions        *)
+(*   3 letters  all 52 single letters, ALL 52 x 52 ordered letter pairs    *)
+(*   4 triples  ordered triples of distinct letters                        *)
+(*   5 quads    four tag members: eight letter sets in all 24 orders       *)
+(*   6 lists    0..3 values in ids / authors / kinds / a tag list          *)
+(*   7 tagvals  tag values of every escape class x spelling, 1..3 per list *)
+(*   8 unknown  one unknown member: key shape x value shape x position     *)
+(*   9 unknown2 two unknown members                                        *)
+(*  10 ws       every whitespace class at every gap (and at all gaps)      *)
+(*  11 ints     integer boundary shapes of limit x since x until in every  *)
+(*              order; kinds at 65535 / 65536 / 2^64                       *)
+(*  12 may      duplicate members (outside the property's domain)          *)
+(*  13 mixed    every full order + two tags + unknown member + whitespace  *)
+(*  14 hand     filters laid out as bytes by hand (as_json round trip)     *)
+(* Families 0, 3, 5, 6, 10, 11, 12 are never sampled.                      *)
+(*                                                                         *)
 (* Environment: C07_MOD / C07_SEED sample the large families (quick tier), *)
 (* C07_FAMS is a bit mask of the families to generate (sharding).          *)
 (***************************************************************************)
